@@ -320,6 +320,15 @@ def replay(R, w):
 
 
 def run(R):
+    _run(R)
+    # objects the LIBRARY builds itself (text extractor, from_rh_vector, CLI, the repository's own tests)
+    # are judged by the same oracles through icontract contracts attached to the real classes
+    from .. import contracts
+    contracts.session(R, "C07")
+    R.require("contract:clean_vector")
+
+
+def _run(R):
     R.rule = RULE
     R.require("clean-structure", "order-consistent", "reparse", "eq-oracle", "foreign")
     R.assumptions = ["'one fixed metric order' is judged as consistency of the observed order relation, not against a "
